@@ -14,7 +14,9 @@ import (
 	"sort"
 	"strings"
 	"sync"
+	"sync/atomic"
 	"time"
+	"verifharness/gq/refluni"
 
 	"github.com/uhn/ggql/pkg/ggql"
 
@@ -227,8 +229,80 @@ func cmdReplay(args []string) {
 	sharedParse(&u, cases, worlds, strings.Split(*strat, ","), rep)
 	if strings.Contains(*strat, "refl") {
 		extendedBetween(&u, cases, rep)
+		registerDuringFirstRequest(&u, rep)
 	}
 	rep.Emit()
+}
+
+// registerDuringFirstRequest (C02: "with or without explicit type/field registration"): Root.RegisterField for a field
+// while the first request that ever uses that field is on its way, on another goroutine.  Whichever comes first, once
+// both have returned (RegisterField without an error) the field is resolved from the registered member: the lazy
+// binding by name checks and binds in one critical section (LazyBind.tla: rr_check .. rf_write under the field's
+// mutex), so it can not overwrite a registration that came in between.  The request announces itself through a field
+// resolved just before the one in question; the registering goroutine then waits a varying number of spins.
+func registerDuringFirstRequest(u *gq.Universe, rep *vh.Report) {
+	p1, ok := u.Data["p1"]
+	if !ok || u.Types["P"] == nil {
+		return
+	}
+	want := p1["say"].S
+	iters := 3000
+	bad := 0
+	var sink int32
+	for it := 0; it < iters && bad == 0; it++ {
+		var progress int32
+		w, err := gq.NewColdRegisteredWorld(u, nil)
+		if err != nil {
+			vh.Die("%s", err)
+		}
+		refluni.Marker = func() { atomic.StoreInt32(&progress, 1) } // (the field resolved right before the one in question)
+		var regErr error
+		done := make(chan struct{})
+		go func() {
+			defer close(done)
+			for atomic.LoadInt32(&progress) == 0 { // (busy: a woken goroutine would come too late)
+			}
+			for d := (it * 7) % 400; 0 < d; d-- {
+				atomic.AddInt32(&sink, 1)
+			}
+			regErr = w.Root.RegisterField("P", "say", "Say2")
+		}()
+		// (the world's own tables are filled by one goroutine first; P.say and P.code stay unused)
+		_ = w.Root.ResolveString("{ pv { name } }", "", nil)
+		var wg sync.WaitGroup
+		gate := make(chan struct{})
+		for g := 0; g < 8; g++ { // several first requests at once: whatever they do about the unbound field is spread over a longer time
+			wg.Add(1)
+			go func() {
+				defer wg.Done()
+				<-gate
+				_ = w.Root.ResolveString("{ pv { code say } }", "", nil)
+			}()
+		}
+		close(gate)
+		wg.Wait()
+		atomic.StoreInt32(&progress, 1)
+		<-done
+		refluni.Marker = nil
+		rep.Case(fmt.Sprintf("register-during-first-request|%d", (it*7)%400), true)
+		rep.Class("register-during-first-request")
+		if regErr != nil {
+			continue
+		}
+		res := w.Root.ResolveString("{ pv { say } }", "", nil)
+		got := ""
+		if d, _ := res["data"].(map[string]interface{}); d != nil {
+			if pv, _ := d["pv"].(map[string]interface{}); pv != nil {
+				got, _ = pv["say"].(string)
+			}
+		}
+		if got != want {
+			bad++
+			rep.Mismatch(vh.Mismatch{
+				Case: map[string]interface{}{"fam": "regrace", "request": "{ pv { code say } } with RegisterField(P, say, Say2) on another goroutine, then { pv { say } }", "strategy": "refl", "aspect": "data", "iteration": it},
+				What: fmt.Sprintf("data: RegisterField(\"P\", \"say\", \"Say2\") returned nil while the first request using the field was resolved; afterwards say is %q, the registered member holds %q", got, want)})
+		}
+	}
 }
 
 // extendedBetween (C11, C08): a parsed request is resolved, the schema grows (a union gets a member, accepted), and the
